@@ -270,7 +270,7 @@ func normErr(err error) string {
 
 func runC01(rc *sim.RunCtx) {
 	h, err := NewHist(rc, HistOpts{Profiles: []string{"core", "core", "presence"}, MinTx: 2, MaxTx: 10,
-		DevKinds: []string{"direct", "direct", "direct", "gnmi-proto", "gnmi-json", "gnmi-json_ietf"},
+		DevKinds: []string{"direct", "direct", "direct", "gnmi-proto", "gnmi-json", "gnmi-json_ietf", "netconf", "netconf-running"},
 		Oracles:  map[string]bool{"C01": true, "C02": true}})
 	if err != nil {
 		rc.HarnessErr("world: %v", err)
@@ -294,5 +294,5 @@ func init() {
 	})
 }
 
-var realCore = []string{"pkg/server TransactionSet/Confirm/Cancel handlers", "pkg/datastore (transaction pipeline)", "pkg/datastore/types", "pkg/tree", "pkg/utils", "pkg/cache/local.go", "sdcio/cache + badger (on tmpfs)", "sdcio/schema-server memstore + goyang (vsim YANG)", "pkg/datastore/clients/schema"}
-var stubCore = []string{"southbound device (direct target.Target interpreting the proto view)", "gRPC transport (handlers called in-process with a peer context)", "wall clock (testing/synctest fake clock)"}
+var realCore = []string{"pkg/server TransactionSet/Confirm/Cancel handlers", "pkg/datastore (transaction pipeline)", "pkg/datastore/types", "pkg/tree", "pkg/utils", "pkg/cache/local.go", "sdcio/cache + badger (on tmpfs)", "sdcio/schema-server memstore + goyang (vsim YANG)", "pkg/datastore/clients/schema", "pkg/datastore/target gnmiTarget.Set and ncTarget.Set (device kinds gnmi-*, netconf*)"}
+var stubCore = []string{"southbound device (direct target.Target interpreting the proto view; in-process gNMI client / NETCONF driver that decode the wire requests of the real targets)", "scrapligo NETCONF driver and gRPC dial of the targets", "gRPC transport (handlers called in-process with a peer context)", "wall clock (testing/synctest fake clock)"}
